@@ -187,6 +187,16 @@ func vpRowShape(keyMax, textMax int) *vpNode {
 // vpFixedLeaf: a string leaf "x" (path semantics do not depend on leaf values).
 func vpFixedLeaf(key string) *vpNode { return &vpNode{Key: key, Type: gjson.String, Text: "x"} }
 
+// vpPathRow: the rows of the path-semantics harnesses. Quick tier: 1..2 members with keys of 0..1
+// bytes. Thorough tier: that, or one member with keys of 0..2 bytes (two members with 2-byte keys
+// did not finish in 50 minutes).
+func vpPathRow(leaf func(key string) *vpNode) *vpNode {
+	if vpThorough() && nondetBool() {
+		return vpRowShapeWith(1, 2, leaf)
+	}
+	return vpRowShapeWith(2, 1, leaf)
+}
+
 func vpRowShapeWith(maxMembers, keyMax int, leaf func(key string) *vpNode) *vpNode {
 	root := &vpNode{Kind: 1}
 	n := 1 + nondetChoice(maxMembers)
@@ -262,11 +272,11 @@ func vpMatcherFor(c *vpCond) *compiledRowMatcher {
 	return compileRowMatcher(&BloomQuery{Expression: &e}, nil, ".", vpTokenizer())
 }
 
-//vp:bounds rows: root object with 1..2 members, each a leaf / an object with one leaf / an array of 1..2 leaves; keys of 0..1 (thorough 0..2) symbolic bytes (printable ASCII incl. '.', empty key incl.); one Field condition with a symbolic path of 0..3 (thorough 4) bytes
+//vp:bounds rows: root object with 1..2 members, each a leaf / an object with one leaf / an array of 1..2 leaves; keys of 0..1 symbolic bytes (thorough: also one-member rows with keys of 0..2 bytes) (printable ASCII incl. '.', empty key incl.); one Field condition with a symbolic path of 0..3 (thorough 4) bytes
 //vp:maxpaths 400000
 func H_C01_field_condition_matches_exactly_what_the_semantics_say() {
 	vpCustomTokenizer = false
-	row := vpRowShapeWith(2, vpBound(1, 2), vpFixedLeaf)
+	row := vpPathRow(vpFixedLeaf)
 	c := vpCondOfKind(0, vpBound(3, 4), 0)
 	m := vpMatcherFor(c)
 	got := m.match(vpToGJSON(row), newRowMatchScratch(m))
@@ -295,7 +305,7 @@ func H_C01_token_conditions_match_exactly_what_the_semantics_say() {
 //vp:maxpaths 400000
 func H_C01_regex_condition_matches_exactly_what_the_semantics_say() {
 	vpCustomTokenizer = false
-	row := vpRowShapeWith(2, vpBound(1, 2), vpFixedLeaf)
+	row := vpPathRow(vpFixedLeaf)
 	c := vpCondOfKind(2+nondetChoice(2), 3, 0)
 	c.token = "x"
 	m := vpMatcherFor(c)
@@ -345,7 +355,7 @@ func vpIndexCovers(row *vpNode, c *vpCond) {
 //vp:maxpaths 400000
 func H_C01_indexed_paths_cover_every_satisfied_condition() {
 	vpCustomTokenizer = nondetBool()
-	row := vpRowShapeWith(2, vpBound(1, 2), vpFixedLeaf)
+	row := vpPathRow(vpFixedLeaf)
 	c := vpCondOfKind(2*nondetChoice(2), 3, 0)
 	c.token = "x"
 	vpIndexCovers(row, c)
@@ -370,7 +380,7 @@ func H_C01_indexed_tokens_cover_every_satisfied_condition() {
 //vp:maxpaths 400000
 func H_C01_regex_guard_field_is_indexed() {
 	vpCustomTokenizer = false
-	row := vpRowShapeWith(2, vpBound(1, 2), vpFixedLeaf)
+	row := vpPathRow(vpFixedLeaf)
 	c := vpCondOfKind(3, 3, 0)
 	c.pattern = "x" // a literal the fixed leaf text matches: the condition holds iff a leaf sits at or beneath the path
 	s := newBloomEntrySets()
